@@ -35,7 +35,7 @@ def walker_enqueue(F, R, bodies, tag="C15-a", pid="C15"):
     pushes = []
     for b in bodies:
         for n in b["_nodes"]:
-            if n.get("k") == "MethodCall" and n["name"] in ("push_front", "push_back", "push") and (peel(n["recv"]).get("field") == "visiting" or (peel(n["recv"]).get("res") == "local" and tyc(F, n["recv"], "VecDeque<&"))):
+            if n.get("k") == "MethodCall" and n["name"] in ("push_front", "push_back", "push") and (field_of(n["recv"]) == "visiting" or (peel(n["recv"]).get("res") == "local" and tyc(F, n["recv"], "VecDeque<&"))):
                 pushes.append(n)
     R.floor("C15-a work-list pushes", len(pushes), 5)
     for p in pushes:
@@ -49,7 +49,7 @@ def walker_enqueue(F, R, bodies, tag="C15-a", pid="C15"):
         blk = p
         while blk.get("_p") is not None and blk.get("k") != "Block":
             blk = blk["_p"]
-        ins = [n for n in walk(blk) if n.get("k") == "MethodCall" and n["name"] == "insert" and (peel(n["recv"]).get("field") == "seen" or tyc(F, n["recv"], "HashSet<&")) and peel_value(n["args"][0]).get("lid") == key.get("lid") and may_reach(F, n, p)]
+        ins = [n for n in walk(blk) if n.get("k") == "MethodCall" and n["name"] == "insert" and (field_of(n["recv"]) == "seen" or tyc(F, n["recv"], "HashSet<&")) and peel_value(n["args"][0]).get("lid") == key.get("lid") and may_reach(F, n, p)]
         is_root_loop = any(a.get("k") == "For" and peel(a["iter"]).get("lid") == p["_top"]["body"]["params"][1].get("lid") for a in k_ancestors(p)) if len(p["_top"]["body"]["params"]) > 1 else False
         R.ob(tag, "root seeding: insert precedes push (roots are a set by contract)", bool(ins) and is_root_loop,
              "`visiting.%s(%s)` is not dominated by a successful `seen.insert(%s)`: a specifier reachable along two edges is yielded twice" % (p["name"], expr_text(p["args"][0]), expr_text(p["args"][0])),
@@ -60,7 +60,7 @@ def walker_enqueue(F, R, bodies, tag="C15-a", pid="C15"):
     inserts = []
     for b in bodies:
         for n in b["_nodes"]:
-            if n.get("k") == "MethodCall" and n["name"] == "insert" and (peel(n["recv"]).get("field") == "seen" or (peel(n["recv"]).get("res") == "local" and tyc(F, n["recv"], "HashSet<&"))):
+            if n.get("k") == "MethodCall" and n["name"] == "insert" and (field_of(n["recv"]) == "seen" or (peel(n["recv"]).get("res") == "local" and tyc(F, n["recv"], "HashSet<&"))):
                 inserts.append(n)
     R.floor("C15-a seen.insert sites", len(inserts), 5)
     for ins in inserts:
@@ -71,7 +71,7 @@ def walker_enqueue(F, R, bodies, tag="C15-a", pid="C15"):
                 iff = a
                 break
         def is_push(n, key=key):
-            return n.get("k") == "MethodCall" and n["name"] in ("push_front", "push_back") and (peel(n["recv"]).get("field") == "visiting" or tyc(F, n["recv"], "VecDeque<&")) and peel_value(n["args"][0]).get("lid") == key.get("lid")
+            return n.get("k") == "MethodCall" and n["name"] in ("push_front", "push_back") and (field_of(n["recv"]) == "visiting" or tyc(F, n["recv"], "VecDeque<&")) and peel_value(n["args"][0]).get("lid") == key.get("lid")
         if iff is None:
             # unconditional insert (root seeding): the push must follow in the same block
             blk = ins
@@ -181,7 +181,7 @@ def run(F, R, tier):
                 eff = [n for n in walk(arm["body"]) if n.get("k") == "MethodCall"]
                 R.ob("C15-c", "previous error / none: nothing is enqueued", not eff, "Err/None arm has effects", where(arm["body"]))
     sk = F.body(IT + "::skip_previous_dependencies")
-    asg = [n for n in sk["_nodes"] if n["k"] == "Assign" and peel(n["l"]).get("field") == "previous_module" and ctor_of(peel(n["r"])) == "std::option::Option::None"]
+    asg = [n for n in sk["_nodes"] if n["k"] == "Assign" and field_of(n["l"]) == "previous_module" and ctor_of(peel(n["r"])) == "std::option::Option::None"]
     R.ob("C15-c", "skip_previous_dependencies clears the previous module", len(asg) == 1, "skip_previous_dependencies no longer sets previous_module = None", sk["file"])
 
     # ---------------- C15-d ------------------------------------------------
@@ -204,12 +204,12 @@ def run(F, R, tier):
             ca = ca or c
         allv = {v["path"] for v in F.adt("graph::ModuleSlot")["variants"]}
         R.ob("C15-d", "every slot kind is handled explicitly", covered >= allv and not ca, "catch-all or missing slot kind %s" % sorted(allv - covered), where(lm[0]))
-    pops = [n for n in nx["_nodes"] if n.get("k") == "MethodCall" and n["name"] == "pop_front" and peel(n["recv"]).get("field") == "visiting"]
+    pops = [n for n in nx["_nodes"] if n.get("k") == "MethodCall" and n["name"] == "pop_front" and field_of(n["recv"]) == "visiting"]
     R.ob("C15-d", "entries are taken from the work list", len(pops) == 1, "next() does not pop exactly one work-list entry per iteration", nx["file"])
 
     # ---------------- C15-e ------------------------------------------------
     en = F.body("<graph::ModuleGraphErrorIterator as std::iter::Iterator>::next")
-    src = [n for n in en["_nodes"] if n.get("k") == "MethodCall" and n["name"] == "next" and peel(n["recv"]).get("field") == "iterator"]
+    src = [n for n in en["_nodes"] if n.get("k") == "MethodCall" and n["name"] == "next" and field_of(n["recv"]) == "iterator"]
     R.ob("C15-e", "error listing pulls entries from the walk iterator", len(src) == 1, "ModuleGraphErrorIterator::next does not call self.iterator.next() exactly once per round", en["file"])
-    direct = [n for n in en["_nodes"] if n.get("k") == "MethodCall" and n["name"] in ("values", "iter", "keys", "get", "get_key_value") and peel(n["recv"]).get("field") in ("module_slots",)]
+    direct = [n for n in en["_nodes"] if n.get("k") == "MethodCall" and n["name"] in ("values", "iter", "keys", "get", "get_key_value") and field_of(n["recv"]) in ("module_slots",)]
     R.ob("C15-e", "error listing never reads module_slots directly", not direct, "ModuleGraphErrorIterator::next reads module_slots itself: its errors would not be those of the visited entries", en["file"])
